@@ -252,3 +252,9 @@ def check(run):
     r3_checked_mutation(run, F)
     r4_copies(run, F)
     r5_hint_codes(run, F)
+    if run.tier == "thorough":
+        FA = run.facts("A")
+        run.key_prefix = "cfgA:"
+        for fn in (r1_bits, r2_outer, r3_checked_mutation, r4_copies, r5_hint_codes):
+            fn(run, FA)
+        run.key_prefix = ""
